@@ -1,7 +1,8 @@
 (** C02  Every cooler any operation writes is a structurally valid CSR collection.
     Only statements, each closed by [exact] of a lemma proved in Proofs/IndexProofs.v.
     Model: Model/Index.v (util.rlencode, create._create.index_pixels / index_bins). *)
-From Cooler Require Import Model.Index Proofs.PixelsProofs Proofs.IndexProofs.
+From Cooler Require Import Model.Bins Model.Index Proofs.PixelsProofs Proofs.BinsProofs Proofs.IndexProofs.
+From Coq Require Import Sorted.
 
 (** the block-wise run-length encoder equals the one-shot encoder for every array and every
     block size c >= 1 (starts, lengths, values): the unbounded form of "drive it across the
@@ -37,3 +38,115 @@ Theorem C02_index_bins_spec : forall (a : list Z) (n : Z),
   index_bins a n (zlen a) = Some (offsets_of n a).
 Proof. exact index_bins_spec. Qed.
 Print Assumptions C02_index_bins_spec.
+
+(** consequences used by every reader: n+1 entries, offset[0] = 0, offset[n] = nnz, monotone,
+    and offset[a[k]] <= k < offset[a[k]+1] *)
+Theorem C02_offsets_props : forall (n : Z) (a : list Z),
+  0 <= n -> NonDecr a -> Forall (fun x => 0 <= x < n) a ->
+  let off := offsets_of n a in
+  length off = Z.to_nat (n + 1) /\
+  nth 0 off 0 = 0 /\
+  nth (Z.to_nat n) off 0 = zlen a /\
+  (forall b b', (b <= b')%nat -> (b' <= Z.to_nat n)%nat -> nth b off 0 <= nth b' off 0) /\
+  (forall k, (k < length a)%nat ->
+     nth (Z.to_nat (nth k a 0)) off 0 <= Z.of_nat k < nth (Z.to_nat (nth k a 0 + 1)) off 0).
+Proof. exact offsets_props. Qed.
+Print Assumptions C02_offsets_props.
+
+(** row b of the pixel table is exactly the position range [offset b, offset (b+1)) *)
+Theorem C02_csr_row_iff : forall (a : list Z) (b : Z) (k : nat),
+  NonDecr a -> (k < length a)%nat ->
+  (count_lt a b <= Z.of_nat k < count_lt a (b + 1) <-> nth k a 0 = b).
+Proof. exact csr_row_iff. Qed.
+Print Assumptions C02_csr_row_iff.
+
+(** what create() stores for a validated, strictly sorted stream is a valid collection that
+    holds exactly the stream *)
+Theorem C02_create_valid : forall (n_chroms : Z) (chroms : list Z) (px : list pixel) (symm : bool),
+  0 <= n_chroms -> NonDecr chroms -> (forall x, In x chroms -> 0 <= x < n_chroms) ->
+  SSorted px ->
+  (forall p, In p px -> 0 <= row p < zlen chroms /\ 0 <= col p < zlen chroms) ->
+  (symm = true -> forall p, In p px -> row p <= col p) ->
+  exists c, create_model n_chroms chroms px symm = Some c /\ ValidCSR c /\ pixels_of c = px
+            /\ nbins c = zlen chroms /\ nnz c = zlen px /\ symmetric_upper c = symm.
+Proof. exact create_valid. Qed.
+Print Assumptions C02_create_valid.
+
+(** the executable check run on the raw columns of every written file decides ValidCSR *)
+Theorem C02_valid_check_sound_complete : forall c : cooler, valid_csr_b c = true <-> ValidCSR c.
+Proof. exact valid_csr_b_spec. Qed.
+Print Assumptions C02_valid_check_sound_complete.
+
+(** the specification the encoder equals IS the run-length encoding of the array: it decodes
+    back to the array, runs are non-empty and maximal (neighbouring values differ), starts are
+    strictly increasing and end before the array length *)
+Theorem C02_rle_spec_characterised : forall a : list Z,
+  let '(starts, lengths, values) := rle_spec a in
+  rle_decode (starts, lengths, values) = a /\
+  AdjDistinct None values /\
+  Forall (fun l => 1 <= l) lengths /\
+  StronglySorted Z.lt (starts ++ [zlen a]) /\
+  length starts = length values /\ length lengths = length values.
+Proof. exact rle_spec_characterised. Qed.
+Print Assumptions C02_rle_spec_characterised.
+
+(** bin-type / bin-size attributes agree with the stored bin table: "fixed" iff a size is
+    recorded, and a recorded size is true of every chromosome (C20's truthfulness theorem) *)
+Theorem C02_info_consistent : forall (blocks : list (list Bins.bin)) (fixed : bool) (bs : option Z),
+  ValidBlocks blocks -> info_bins (concat blocks) = (fixed, bs) ->
+  (fixed = true <-> exists b, bs = Some b) /\
+  (fixed = false <-> bs = None) /\
+  bs = Bins.get_binsize (concat blocks) /\
+  forall b, bs = Some b ->
+    1 <= b /\ forall i blk, nth_error blocks i = Some blk ->
+      blk = Bins.ideal_chrom (Z.of_nat i) (chrom_end blk) b.
+Proof. exact info_consistent. Qed.
+Print Assumptions C02_info_consistent.
+
+(** ValidCSR is an invariant of every history of producing operations, GIVEN the producer
+    theorems (every operation streams strictly sorted, in-range, upper-triangular pixels over a
+    valid bin table when its inputs are valid).  Those hypotheses are the subject of C06-C09;
+    they are not discharged here (this is the partial part of C02). *)
+Theorem C02_history_valid_given_producers :
+  forall (op : Type) (plan : op -> list cooler -> Z * list Z * list pixel * bool),
+  (forall o st, Forall ValidCSR st -> GoodStream (plan o st)) ->
+  forall (ops : list op) (init : list cooler),
+  Forall ValidCSR init ->
+  Forall ValidCSR (run_history op plan ops init) /\
+  (length (run_history op plan ops init) = length init + length ops)%nat.
+Proof. exact history_valid. Qed.
+Print Assumptions C02_history_valid_given_producers.
+
+(** ------------------------------------------------------------------ non-vacuity *)
+Example ex_C02_blocks_cross_runs :
+  rlencode [0;0;1;1;1;3] (Some 2) = Some ([0;2;5], [2;3;1], [0;1;3]) /\
+  rlencode [0;0;1;1;1;3] None = Some ([0;2;5], [2;3;1], [0;1;3]).
+Proof. vm_compute. split; reflexivity. Qed.
+
+(** a two-chromosome, four-bin collection with an empty row: hypotheses of create_valid hold,
+    the stored indexes are the expected ones and the checker accepts it *)
+Example ex_C02_create_valid :
+  nondecr_b [0;0;1;1] = true /\ inrange1_b 2 [0;0;1;1] = true /\
+  ssorted_b [((0,0),1);((0,2),3);((3,3),4)] = true /\
+  inrange_b 4 [((0,0),1);((0,2),3);((3,3),4)] = true /\
+  upper_b [((0,0),1);((0,2),3);((3,3),4)] = true /\
+  option_map (fun c => (bin1_offset c, chrom_offset c, nnz c, sum c, valid_csr_b c))
+             (create_model 2 [0;0;1;1] [((0,0),1);((0,2),3);((3,3),4)] true)
+  = Some ([0;2;2;2;3], [0;2;4], 3, 8, true).
+Proof. vm_compute. repeat split; reflexivity. Qed.
+
+(** the checker refuses the known finding D2 (a pixel whose bin id equals nbins) although the
+    index built by the loop is still the counting index (index_pixels_spec needs no upper bound) *)
+Example ex_C02_out_of_range_refused :
+  index_pixels [0;1;1] 2 3 = Some (offsets_of 2 [0;1;1]) /\
+  valid_csr_b (mkCooler 2 1 [0;0] [0;1;1] [1;1;2] [5;6;7] [0;1;3] [0;2] 3 18 true) = false /\
+  valid_csr_b (mkCooler 2 1 [0;0] [0;0;1] [0;1;1] [5;6;7] [0;2;3] [0;2] 3 18 true) = true.
+Proof. vm_compute. repeat split; reflexivity. Qed.
+
+(** an index that is off by one position, a duplicate pixel and a wrong nnz are each refused *)
+Example ex_C02_checker_discriminates :
+  valid_csr_b (mkCooler 2 1 [0;0] [0;0;1] [0;1;1] [5;6;7] [0;1;3] [0;2] 3 18 true) = false /\
+  valid_csr_b (mkCooler 2 1 [0;0] [0;0;1] [0;0;1] [5;6;7] [0;2;3] [0;2] 3 18 true) = false /\
+  valid_csr_b (mkCooler 2 1 [0;0] [0;0;1] [0;1;1] [5;6;7] [0;2;3] [0;2] 2 18 true) = false /\
+  valid_csr_b (mkCooler 2 1 [0;0] [1;0;1] [1;1;1] [5;6;7] [0;1;3] [0;2] 3 18 false) = false.
+Proof. vm_compute. repeat split; reflexivity. Qed.
